@@ -70,9 +70,10 @@ CHECKS = {
              "through identifier, non-ignored names), no file twice for overlapping/repeated paths, independence of the "
              "enumeration order of files and of sub-directories, import only through the --module gate and once per module "
              "name (C14_import_gate, C14_import_once), candidate module names carry the package of their search path "
-             "(longest prefix first). Tied to the real "
+             "(longest prefix first); with -s each package directory is walked once and nothing outside the named packages "
+             "is loaded (C14_package_once, C14_package_restricts). Tied to the real "
              "code on temp trees created in shuffled order; imports observed through module top-level code.",
-        note="--package/-s is not modelled; symlinked directories are materialised and must behave like real ones "
+        note="-s/--package is modelled (test_dirs); which directories a package name resolves to is asked of Python's import system in a worker; symlinked directories are materialised and must behave like real ones "
              "(D30 fixed); independence of enumeration order is proved per directory level and as one statement over whole "
              "trees (C14_enum_independent: trees related by permuting files and sub-directories at any depth, distinct "
              "sub-directory names)",
